@@ -161,6 +161,15 @@ def configs(fp, cls):
             mk("length_ranges", lambda kw: (opts(kw), kw.update(path_length_ranges=[[0, 100]], path_length_factors=[1])))
         if "trusted_edges_for_safety" in sig:
             mk("trusted_edges", lambda kw: (opts(kw), kw.update(trusted_edges_for_safety=[("s", "a")])))
+            # ... as a set (the type the classes use internally), together with what the constructors combine it with:
+            # constraints whose edges are trusted as well, ignored / scale-0 edges that are removed from the trusted ones
+            def trusted_set(kw):
+                cons(kw)
+                kw["elements_to_ignore"] = [("s", "a")]
+                kw["trusted_edges_for_safety"] = {("s", "a"), ("b", "t")}
+                if "error_scaling" in sig:
+                    kw["error_scaling"] = {("b", "t"): 0}
+            mk("trusted_edges_set", trusted_set)
 
         def node(kw):
             opts(kw)
